@@ -36,6 +36,9 @@ type Config struct {
 	Expired  func() bool
 	// OnLeaf is called at every path end (depth bound or no enabled op) with the path.
 	OnLeaf func(path []string, in Instance)
+	// Iterative: explore depth 1, 2, ... MaxDepth in turn (shortest counterexamples first; the
+	// deepest bound completed before the budget ran out is reported as "max_completed_depth").
+	Iterative bool
 }
 
 type Stats struct {
@@ -59,6 +62,26 @@ type explorer struct {
 
 // Explore runs the search, recording violations, states and samples into p.
 func Explore(cfg Config, p *vr.Partial) Stats {
+	if cfg.Iterative {
+		var total Stats
+		cfg.Iterative = false
+		max := cfg.MaxDepth
+		for d := 1; d <= max; d++ {
+			cfg.MaxDepth = d
+			st := Explore(cfg, p)
+			total.Executions += st.Executions
+			total.Transitions += st.Transitions
+			if st.Incomplete {
+				total.Incomplete = true
+				break
+			}
+			p.Max("max_completed_depth", int64(d))
+			if len(p.Violations) > 0 {
+				break // shortest counterexamples found at this depth
+			}
+		}
+		return total
+	}
 	if cfg.ShardAt <= 0 {
 		cfg.ShardAt = 2
 	}
